@@ -94,6 +94,18 @@ reg('C10', True,
     'are conservative for a metric (inductive geometric argument), result order under ties.',
     'clang 14 AST/CFG of the explicit instantiations over int; the distance function is an opaque callback',
     'canonical (signed-term) normal forms compared with a specification table + typestate over clang CFG')
-for _p in ['C01', 'C02', 'C03', 'C06', 'C07', 'C08', 'C09', 'C14', 'C15', 'C16',
+reg('C09', True,
+    'Decides structural and finite-domain clauses for all inputs: in the three loaders marker and signature tests '
+    '(established on CFG edges) dominate every payload read and a true result implies the payload was read; writers fill '
+    'every header field (counts = container sizes) before the payload; writer o reader of the vertex tag is the identity '
+    'on all four (start, goal) combinations in an order-sensitive model that adds each vertex once; edge fields round '
+    'trip in order; every field of each serialised record is archived; compound (de)serialize walk identical offsets; '
+    'copyToReals/copyFromReals mirror; WrapperStateSpace forwards all State-taking virtuals with unwrapped arguments; '
+    'comparator functors never compare a parameter with itself; binary-searched index lists are re-sorted after every '
+    'append. Not decided: bit-exact value round trip, graph isomorphism for arbitrary graphs, truncation at every offset '
+    '(Boost archive behaviour).',
+    'clang 14 AST/CFG of six units; Boost.Serialization is trusted',
+    'guard dominance over clang CFG + finite-domain composition of writer/reader tables + forwarding-shape rules')
+for _p in ['C01', 'C02', 'C03', 'C06', 'C07', 'C08', 'C14', 'C15', 'C16',
            'C17', 'C20']:
     reg(_p, False, '', '', '', PENDING)
